@@ -18,6 +18,7 @@ import (
 	"sync/atomic"
 	"time"
 
+	"golang.org/x/sys/unix"
 	"pgregory.net/rapid"
 
 	gnet "github.com/panjf2000/gnet/v2"
@@ -40,6 +41,7 @@ type Cfg struct {
 	SndBuf    int // socket send buffer of the gnet side (0 = default)
 	RcvBuf    int
 	Ticker    bool
+	Listeners int // > 1: gnet.Rotate with that many listen addresses of the same network
 }
 
 func (c Cfg) String() string {
@@ -61,7 +63,11 @@ func (c Cfg) String() string {
 	if c.ReusePort {
 		acc = "reuseport"
 	}
-	return fmt.Sprintf("%s %s %s loops=%d %s lb=%d rcap=%d wcap=%d sndbuf=%d rcvbuf=%d ticker=%v", c.Net, side, mode, c.Loops, acc, c.LB, c.ReadCap, c.WriteCap, c.SndBuf, c.RcvBuf, c.Ticker)
+	ls := ""
+	if c.Listeners > 1 {
+		ls = fmt.Sprintf(" listeners=%d", c.Listeners)
+	}
+	return fmt.Sprintf("%s %s %s loops=%d %s lb=%d rcap=%d wcap=%d sndbuf=%d rcvbuf=%d ticker=%v%s", c.Net, side, mode, c.Loops, acc, c.LB, c.ReadCap, c.WriteCap, c.SndBuf, c.RcvBuf, c.Ticker, ls)
 }
 
 // HasIPv6 reports whether ::1 is usable.
@@ -363,14 +369,16 @@ var ErrInfra = errors.New("fixture")
 
 // Engine is one running gnet engine (or client) plus the harness side.
 type Engine struct {
-	Cfg       Cfg
-	Eng       gnet.Engine
-	Logger    *CaptureLogger
-	Log       *Log
-	Addr      string // address peers dial (server side) / the harness listener's address (client side)
-	ProtoAddr string // what was given to Run
-	Shutdowns int32
-	Ticks     int32
+	Cfg        Cfg
+	Eng        gnet.Engine
+	Logger     *CaptureLogger
+	Log        *Log
+	Addr       string   // address peers dial (server side) / the harness listener's address (client side)
+	ProtoAddr  string   // what was given to Run
+	Addrs      []string // all dial addresses (Rotate)
+	ProtoAddrs []string
+	Shutdowns  int32
+	Ticks      int32
 
 	h       *handler
 	booted  chan struct{}
@@ -380,6 +388,7 @@ type Engine struct {
 	dir     string
 	connMu  sync.Mutex
 	stopped bool
+	dialSeq int64
 }
 
 var (
@@ -421,11 +430,47 @@ func Cleanup() {
 	}
 }
 
+// hostFor: every test process listens on its own 127.x.y.z address, so that ports
+// can never collide with a concurrently running shard (with SO_REUSEPORT two
+// unrelated engines would otherwise share connections). IPv6 has only ::1.
 func hostFor(netw string) string {
-	if netw == "tcp6" {
+	if netw == "tcp6" || netw == "udp6" {
 		return "[::1]"
 	}
-	return "127.0.0.1"
+	p := os.Getpid()
+	return fmt.Sprintf("127.%d.%d.%d", 1+(p>>16)%120, (p>>8)&0xff, p&0xff)
+}
+
+// Host returns the loop-back host used for a network by this process.
+func Host(netw string) string { return hostFor(netw) }
+
+// portFree reports whether nobody listens on host:port (probe without reuse flags).
+func portFree(netw, addr string) bool {
+	if strings.HasPrefix(netw, "udp") {
+		c, err := net.ListenPacket(netw, addr)
+		if err != nil {
+			return false
+		}
+		c.Close()
+		return true
+	}
+	l, err := net.Listen(netw, addr)
+	if err != nil {
+		return false
+	}
+	l.Close()
+	return true
+}
+
+// FreeAddr picks a free host:port for this process.
+func FreeAddr(netw string) string {
+	for i := 0; i < 200; i++ {
+		a := fmt.Sprintf("%s:%d", hostFor(netw), allocPort())
+		if portFree(netw, a) {
+			return a
+		}
+	}
+	return fmt.Sprintf("%s:%d", hostFor(netw), allocPort())
 }
 
 // Start launches an engine for cfg.
@@ -464,17 +509,40 @@ func Start(cfg Cfg, hooks EngineHooks) (*Engine, error) {
 			dial = sockPath("srv")
 			e.ProtoAddr = "unix://" + dial
 		} else {
-			dial = fmt.Sprintf("%s:%d", hostFor(cfg.Net), allocPort())
+			dial = FreeAddr(cfg.Net)
 			e.ProtoAddr = cfg.Net + "://" + dial
 		}
 		e.Addr = dial
-		go func() { e.done <- gnet.Run(e.h, e.ProtoAddr, opts...) }()
+		e.Addrs, e.ProtoAddrs = []string{dial}, []string{e.ProtoAddr}
+		for i := 1; i < cfg.Listeners; i++ {
+			var d, pa string
+			if cfg.Net == "unix" {
+				d = sockPath("srv")
+				pa = "unix://" + d
+			} else {
+				d = FreeAddr(cfg.Net)
+				pa = cfg.Net + "://" + d
+			}
+			e.Addrs = append(e.Addrs, d)
+			e.ProtoAddrs = append(e.ProtoAddrs, pa)
+		}
+		if cfg.Listeners > 1 {
+			go func() { e.done <- gnet.Rotate(e.h, e.ProtoAddrs, opts...) }()
+		} else {
+			go func() { e.done <- gnet.Run(e.h, e.ProtoAddr, opts...) }()
+		}
 		select {
 		case <-e.booted:
 			// Run may still fail after OnBoot (listener set-up of further loops); give
 			// the acceptors a moment by probing with a connect in Connect itself.
 			return e, nil
 		case err := <-e.done:
+			select {
+			case <-e.booted: // OnBoot ran and Run has already returned (Shutdown from OnBoot)
+				e.done <- err
+				return e, nil
+			default:
+			}
 			if try < 30 && err != nil && (strings.Contains(err.Error(), "address already in use") || strings.Contains(err.Error(), "bind")) {
 				continue
 			}
@@ -546,8 +614,12 @@ func (e *Engine) Connect(st ConnHooks) (net.Conn, gnet.Conn, error) {
 	e.h.mu.Unlock()
 	var peer net.Conn
 	var err error
+	addr := e.Addr
+	if len(e.Addrs) > 1 {
+		addr = e.Addrs[int(atomic.AddInt64(&e.dialSeq, 1))%len(e.Addrs)]
+	}
 	for try := 0; try < 50; try++ {
-		peer, err = net.DialTimeout(netw, e.Addr, 5*time.Second)
+		peer, err = net.DialTimeout(netw, addr, 5*time.Second)
 		if err == nil {
 			break
 		}
@@ -609,4 +681,110 @@ func (e *Engine) WaitDone(d time.Duration) (error, bool) {
 	case <-time.After(d):
 		return nil, false
 	}
+}
+
+// ---- descriptor table helpers ------------------------------------------------------------
+
+// FdTable maps every open descriptor of the process to what it refers to.
+func FdTable() map[int]string {
+	out := map[int]string{}
+	ents, err := os.ReadDir("/proc/self/fd")
+	if err != nil {
+		return out
+	}
+	for _, e := range ents {
+		n, err := strconv.Atoi(e.Name())
+		if err != nil {
+			continue
+		}
+		if l, err := os.Readlink("/proc/self/fd/" + e.Name()); err == nil {
+			out[n] = l
+		}
+	}
+	return out
+}
+
+func fdInteresting(target string) bool {
+	return strings.HasPrefix(target, "socket:") || strings.Contains(target, "eventpoll") || strings.Contains(target, "eventfd")
+}
+
+// Leaked returns the sockets / epoll / eventfd descriptors that are open now and
+// were not open in `before`; it waits up to `wait` for the table to settle (the
+// Go runtime closes the harness's own sockets asynchronously).
+func Leaked(before map[int]string, wait time.Duration) (desc []string, fds []int) {
+	deadline := time.Now().Add(wait)
+	for {
+		desc, fds = desc[:0], fds[:0]
+		now := FdTable()
+		for fd, target := range now {
+			if fdInteresting(target) && before[fd] != target {
+				desc = append(desc, fmt.Sprintf("%d -> %s", fd, target))
+				fds = append(fds, fd)
+			}
+		}
+		if len(desc) == 0 || time.Now().After(deadline) {
+			return
+		}
+		time.Sleep(5 * time.Millisecond)
+	}
+}
+
+// CloseAcceptedLeaks closes sockets that are still open after the engine has
+// stopped and whose *local* address is one of the engine's listen addresses, i.e.
+// sockets the engine accepted and never closed (the harness only owns the
+// connecting ends, so nothing it or the Go runtime owns is touched). Hygiene for
+// long test processes; it returns the number closed and gives no verdict.
+func (e *Engine) CloseAcceptedLeaks() int {
+	if e.Cfg.Client {
+		return 0
+	}
+	want := map[string]bool{}
+	for _, a := range e.Addrs {
+		want[a] = true
+	}
+	n := 0
+	for fd, target := range FdTable() {
+		if !strings.HasPrefix(target, "socket:") {
+			continue
+		}
+		sa, err := unix.Getsockname(fd)
+		if err != nil {
+			continue
+		}
+		if _, err := unix.Getpeername(fd); err != nil {
+			continue // a listener or an unconnected socket
+		}
+		var local string
+		switch a := sa.(type) {
+		case *unix.SockaddrInet4:
+			local = fmt.Sprintf("%s:%d", net.IP(a.Addr[:]).String(), a.Port)
+		case *unix.SockaddrInet6:
+			local = fmt.Sprintf("[%s]:%d", net.IP(a.Addr[:]).String(), a.Port)
+		case *unix.SockaddrUnix:
+			local = a.Name
+		}
+		if want[local] {
+			_ = unix.Close(fd)
+			n++
+		}
+	}
+	return n
+}
+
+// GnetStacks returns the stacks of all goroutines that are inside framework code
+// (diagnostics for a hang).
+func GnetStacks() string {
+	buf := make([]byte, 1<<20)
+	n := runtime.Stack(buf, true)
+	var out []string
+	for _, g := range strings.Split(string(buf[:n]), "\n\n") {
+		if strings.Contains(g, "panjf2000/gnet/v2.") || strings.Contains(g, "gnet/v2/pkg/") {
+			lines := strings.Split(g, "\n")
+			if len(lines) > 24 {
+				lines = lines[:24]
+			}
+			out = append(out, strings.Join(lines, "\n"))
+		}
+	}
+	return strings.Join(out, "\n\n")
 }
